@@ -989,6 +989,8 @@ class list_t(object):
         else:
             if not issubclass(type(v), type(self.t)):
                 raise Exception("Attempting to append illegal element to object array")
+            # A random-size list may have been truncated by the last randomization
+            del self.backing_arr[len(model.field_l):]
             self.backing_arr.append(v)
             model.append(v.get_model())
             # Propagate randomization information
@@ -1000,6 +1002,7 @@ class list_t(object):
         
     def clear(self):
         self.get_model().clear()
+        self.backing_arr.clear()
 
     def __contains__(self, lhs):
         if get_expr_mode():
@@ -1121,7 +1124,15 @@ class list_t(object):
             self.get_model().field_l[k].set_val(
                 ValueScalar(int(v) & (1 << self.t.width)-1))
         else:
+            if not issubclass(type(v), type(self.t)):
+                raise Exception("Attempting to assign illegal element to object array")
+            model = self.get_model()
             self.backing_arr[k] = v
+            # The model must hold the new element as well
+            model.set_field(k, v.get_model())
+            v.get_model().is_declared_rand = model.is_declared_rand
+            v.get_model().rand_mode = model.is_declared_rand
+            model.name_elems()
             
     def __str__(self):
         model = self.get_model()
